@@ -871,7 +871,7 @@ pub fn run_c09(rep: &Reporter, thorough: bool) -> Value {
     }
     let idx = AtomicUsize::new(0);
     let threads = 2 * std::thread::available_parallelism().map(|n| n.get()).unwrap_or(8);
-    let deadline = std::time::Instant::now() + std::time::Duration::from_secs(crate::checks::cap_mult() * if thorough { 2400 } else { 90 });
+    let deadline = std::time::Instant::now() + std::time::Duration::from_secs(crate::checks::cap_secs(if thorough { 2400 } else { 90 }));
     let skipped = AtomicU64::new(0);
     std::thread::scope(|sc| {
         for _ in 0..threads {
